@@ -3,91 +3,97 @@ package c28
 import (
 	"context"
 	dsql "database/sql"
+	"errors"
 	"fmt"
-	"io"
-	"log"
-	"net"
+	"runtime"
 	"strings"
 	"testing"
 	"time"
 
 	sqle "github.com/dolthub/go-mysql-server"
 	"github.com/dolthub/go-mysql-server/memory"
-	"github.com/dolthub/go-mysql-server/server"
 	"github.com/dolthub/go-mysql-server/sql"
 	"github.com/dolthub/go-mysql-server/sql/analyzer"
 	"github.com/dolthub/go-mysql-server/vh/internal/kf"
+	"github.com/dolthub/go-mysql-server/vh/internal/srvfx"
 	"github.com/dolthub/go-mysql-server/vh/internal/stats"
 	vmysql "github.com/dolthub/vitess/go/mysql"
-	gomysql "github.com/go-sql-driver/mysql"
-	"github.com/sirupsen/logrus"
+	"github.com/dolthub/vitess/go/sqltypes"
 	"pgregory.net/rapid"
 )
 
-// wireFixture is one server on a loopback port with its provider, plus three clients:
-// go-sql-driver (text and binary protocol) and the vitess client (field metadata).
+// wireFixture is one server on a loopback port (srvfx: server.NewServer on 127.0.0.1:0) with
+// its provider, plus three clients: go-sql-driver (text and binary protocol) and the vitess
+// client (field metadata).
 type wireFixture struct {
 	db     *memory.Database
 	pro    *memory.DbProvider
 	engine *sqle.Engine
-	srv    *server.Server
-	done   chan error
+	srv    *srvfx.Server
 	sqlDB  *dsql.DB
 	vconn  *vmysql.Conn
 	sess   *memory.Session
 	nextID int
+	base   int // goroutines before the fixture was started
 }
 
-func newWireFixture(t *testing.T) *wireFixture {
-	w := &wireFixture{}
-	logrus.SetOutput(io.Discard)
-	_ = gomysql.SetLogger(log.New(io.Discard, "", 0))
+// clientTimeout is a liveness guard for one client call (never an oracle): a call that does
+// not return in time makes the run inconclusive.
+const clientTimeout = 180 * time.Second
+
+func newWireFixture() *wireFixture {
+	w := &wireFixture{base: runtime.NumGoroutine()}
 	w.db = memory.NewDatabase("d")
 	w.pro = memory.NewDBProvider(w.db)
 	w.engine = sqle.New(analyzer.NewDefault(w.pro), &sqle.Config{})
-	l, err := net.Listen("tcp", "127.0.0.1:0")
+	var err error
+	w.srv, err = srvfx.Start(w.engine, w.pro, srvfx.Opts{TeardownTimeout: 60 * time.Second})
 	if err != nil {
-		t.Fatalf("listen: %v", err)
+		srvfx.Inconclusive(fmt.Errorf("start server: %w", err))
 	}
-	port := l.Addr().(*net.TCPAddr).Port
-	w.srv, err = server.NewServer(server.Config{Protocol: "tcp", Address: l.Addr().String(), Listener: l}, w.engine, sql.NewContext, memory.NewSessionBuilder(w.pro), nil)
+	w.sqlDB, err = w.srv.Open("d", map[string]string{"interpolateParams": "false"})
 	if err != nil {
-		t.Fatalf("NewServer: %v", err)
+		srvfx.Inconclusive(fmt.Errorf("open client: %w", err))
 	}
-	w.done = make(chan error, 1)
-	go func() { w.done <- w.srv.Start() }()
-	dsn := fmt.Sprintf("root@tcp(127.0.0.1:%d)/d?interpolateParams=false", port)
-	w.sqlDB, err = dsql.Open("mysql", dsn)
-	if err != nil {
-		t.Fatalf("open: %v", err)
-	}
+	// one connection, kept between the cases
 	w.sqlDB.SetMaxOpenConns(1)
-	deadline := time.Now().Add(20 * time.Second)
-	for {
-		if err = w.sqlDB.Ping(); err == nil {
-			break
-		}
-		if time.Now().After(deadline) {
-			t.Fatalf("server does not accept connections: %v", err)
-		}
-		time.Sleep(20 * time.Millisecond)
+	w.sqlDB.SetMaxIdleConns(1)
+	ctx, cancel := context.WithTimeout(context.Background(), clientTimeout)
+	defer cancel()
+	if err = w.sqlDB.PingContext(ctx); err != nil {
+		srvfx.Inconclusive(fmt.Errorf("server does not accept connections: %w", err))
 	}
-	w.vconn, err = vmysql.Connect(context.Background(), &vmysql.ConnParams{Host: "127.0.0.1", Port: port, Uname: "root", DbName: "d"})
+	w.vconn, err = vmysql.Connect(ctx, &vmysql.ConnParams{Host: w.srv.Host, Port: w.srv.Port, Uname: "root", DbName: "d"})
 	if err != nil {
-		t.Fatalf("vitess client: %v", err)
+		srvfx.Inconclusive(fmt.Errorf("vitess client: %w", err))
 	}
 	w.sess = memory.NewSession(sql.NewBaseSession(), w.pro)
 	w.sess.SetCurrentDatabase("d")
 	return w
 }
 
+// close tears the fixture down and makes sure that nothing of it stays behind: the clients
+// are closed, the listener is closed, the accept loop and every connection handler have
+// returned (srvfx.Close awaits SessionManager.WaitForClosedConnections), the port no longer
+// accepts connections and the number of goroutines is back to what it was before the
+// fixture was started. A teardown that does not get there is a liveness problem of the
+// harness (inconclusive), never a verdict about the property.
 func (w *wireFixture) close() {
 	w.vconn.Close()
-	w.sqlDB.Close()
-	w.srv.Close()
-	select {
-	case <-w.done:
-	case <-time.After(20 * time.Second):
+	if err := w.srv.Close(); err != nil {
+		srvfx.Inconclusive(err)
+	}
+	// The listener's accept goroutine (server/listener.go NewListener) only returns once the
+	// socket is closed, so the goroutine count below also proves that the listener is gone.
+	// (Not probed by dialling the port: another process may have been given it meanwhile.)
+	deadline := time.Now().Add(30 * time.Second)
+	for runtime.NumGoroutine() > w.base {
+		if time.Now().After(deadline) {
+			buf := make([]byte, 1<<16)
+			buf = buf[:runtime.Stack(buf, true)]
+			srvfx.Inconclusive(fmt.Errorf("%d goroutines before the server fixture, %d after its teardown:\n%s", w.base, runtime.NumGoroutine(), buf))
+		}
+		time.Sleep(10 * time.Millisecond)
 	}
 }
 
@@ -110,186 +116,243 @@ func (w *wireFixture) exec(q string) error {
 	return iter.Close(ctx)
 }
 
+// table is one freshly created table of the wire fixture with the values stored in it.
+type table struct {
+	name   string
+	col    colType
+	stored []any
+}
+
+// store creates a table with one column of type c (DDL in process) and stores the storable
+// ones of the raw inputs through the table API, so that the stored Go value is known
+// exactly. fail reports a harness problem; skipped is called for every input that is not
+// storable. The caller drops the table.
+func (w *wireFixture) store(c colType, raws []any, fail func(string, ...any), skipped func()) *table {
+	w.nextID++
+	name := fmt.Sprintf("w%d", w.nextID)
+	if err := w.exec(fmt.Sprintf("CREATE TABLE %s (id INT PRIMARY KEY, c %s)", name, c.ddl)); err != nil {
+		fail("create table with %s: %v", c.ddl, err)
+	}
+	ctx := w.ctx()
+	tbl, ok, err := w.db.GetTableInsensitive(ctx, name)
+	if err != nil || !ok {
+		fail("table %s: %v", name, err)
+	}
+	mt, ok := tbl.(*memory.Table)
+	if !ok {
+		fail("table %s is a %T", name, tbl)
+	}
+	// the column type of *this* table (equal to the pool's type; taken from the table so
+	// that ENUM/SET values are resolved against it)
+	tb := &table{name: name, col: colType{ddl: c.ddl, typ: tbl.Schema(ctx)[1].Type, kind: c.kind, gen: c.gen}}
+	for _, raw := range raws {
+		v, ok := storable(ctx, tb.col, raw)
+		if !ok {
+			skipped()
+			continue
+		}
+		if err := mt.Insert(ctx, sql.NewRow(int32(len(tb.stored)), v)); err != nil {
+			fail("%s: insert %s through the table API: %v", c.ddl, show(v), err)
+		}
+		tb.stored = append(tb.stored, v)
+	}
+	return tb
+}
+
+func (w *wireFixture) drop(tb *table) { _ = w.exec("DROP TABLE " + tb.name) }
+
+// viol is one deviation from the property; id is the known finding whose signature it
+// matches ("" = none).
+type viol struct {
+	id  string
+	msg string
+}
+
+// seen is one received value that converted back to the stored one.
+type seen struct {
+	proto string
+	text  string
+}
+
+// readBack reads the table over the three routes and returns every deviation from the
+// property (the first one per received value; a failing query ends its route).
+func (w *wireFixture) readBack(apiCtx *sql.Context, tb *table) (vs []viol, good []seen) {
+	col, stored := tb.col, tb.stored
+	query := fmt.Sprintf("SELECT c FROM %s ORDER BY id", tb.name)
+	add := func(id, format string, args ...any) { vs = append(vs, viol{id, fmt.Sprintf(format, args...)}) }
+
+	checkText := func(proto string, i int, text []byte, announced int64) {
+		v := stored[i]
+		if announced >= 0 && int64(len(text)) > announced {
+			add(lengthFinding(col, text), "%s over %s: text %q of stored %s has %d bytes, the field packet announces column length %d", col.ddl, proto, text, show(v), len(text), announced)
+		}
+		// which finding explains a wrong value: a known text form of the API, or what a known
+		// finding makes a client receive over this protocol
+		id := roundTripFinding(col, v, text)
+		if id == "" {
+			if sv, err := col.typ.SQL(apiCtx, nil, v); err == nil {
+				id = wireFinding(col, proto, sv.Raw(), text)
+			}
+		}
+		v2, err := col.back(apiCtx, text)
+		if err != nil {
+			add(id, "%s over %s: received %q for stored %s; it does not convert back: %v", col.ddl, proto, text, show(v), err)
+			return
+		}
+		if same, err := col.same(apiCtx, v, v2); !same {
+			add(id, "%s over %s: stored %s, received %q, converted back %s (compare error: %v)", col.ddl, proto, show(v), text, show(v2), err)
+			return
+		}
+		good = append(good, seen{proto, string(text)})
+	}
+
+	// (1) vitess client, text protocol, with the field packet
+	res, err := w.vitessFetch(query)
+	switch {
+	case err != nil:
+		add(queryFinding(col, stored, err), "%s: %s over the text protocol (vitess client) fails: %v; stored %s", col.ddl, query, err, showAll(stored))
+	case len(res.Rows) != len(stored) || len(res.Fields) != 1:
+		add("", "%s: %d rows / %d fields for %d stored values", col.ddl, len(res.Rows), len(res.Fields), len(stored))
+	default:
+		announced := int64(res.Fields[0].ColumnLength)
+		for i, row := range res.Rows {
+			if row[0].IsNull() {
+				add("", "%s: stored %s, received NULL", col.ddl, show(stored[i]))
+				continue
+			}
+			checkText("text/vitess", i, row[0].Raw(), announced)
+		}
+	}
+
+	// what go-sql-driver hands over: bytes (the text form, or the driver's formatting of a
+	// binary temporal value), or a Go number for numeric columns (the driver parses the text
+	// of integer, YEAR and floating columns itself; re-printing such a number would judge
+	// the client's formatting, not the server's: YEAR '0000' arrives as int64(0))
+	checkDriver := func(proto string, i int, got any) {
+		v := stored[i]
+		switch x := got.(type) {
+		case nil:
+			add("", "%s over %s: stored %s, received NULL", col.ddl, proto, show(v))
+		case []byte:
+			checkText(proto, i, x, -1)
+		default:
+			v2, _, err := col.typ.Convert(apiCtx, x)
+			if err != nil {
+				add("", "%s over %s: stored %s, received %s; it does not convert back: %v", col.ddl, proto, show(v), show(x), err)
+				return
+			}
+			if same, err := col.same(apiCtx, v, v2); !same {
+				add("", "%s over %s: stored %s, received %s, converted back %s (compare error: %v)", col.ddl, proto, show(v), show(x), show(v2), err)
+				return
+			}
+			good = append(good, seen{proto + "-typed", fmt.Sprint(x)})
+		}
+	}
+
+	// (2) go-sql-driver, text protocol (COM_QUERY); rows are read completely and the
+	// cursor closed before anything is checked, so a failing case cannot leak the connection
+	got, err := fetch(w.sqlDB, query)
+	switch {
+	case err != nil:
+		add(queryFinding(col, stored, err), "%s: %s over the text protocol fails: %v; stored %s", col.ddl, query, err, showAll(stored))
+	case len(got) != len(stored):
+		add("", "%s: text protocol delivered %d of %d rows", col.ddl, len(got), len(stored))
+	default:
+		for i, x := range got {
+			checkDriver("text/go-sql-driver", i, x)
+		}
+	}
+
+	// (3) go-sql-driver, binary protocol (prepared statement with an argument)
+	got, err = fetch(w.sqlDB, fmt.Sprintf("SELECT c FROM %s WHERE id >= ? ORDER BY id", tb.name), 0)
+	switch {
+	case err != nil:
+		add(queryFinding(col, stored, err), "%s: prepared SELECT fails: %v; stored %s", col.ddl, err, showAll(stored))
+	case len(got) != len(stored):
+		add("", "%s: binary protocol delivered %d of %d rows; stored %s", col.ddl, len(got), len(stored), showAll(stored))
+	default:
+		for i, x := range got {
+			checkDriver("binary/go-sql-driver", i, x)
+		}
+	}
+	return vs, good
+}
+
 func TestC28Wire(t *testing.T) {
 	st := stats.New("C28", "wire")
 	defer st.Flush()
 	pool := loadTypes(t.Fatalf)
-	w := newWireFixture(t)
+	w := newWireFixture()
 	defer w.close()
 	apiCtx := sql.NewContext(context.Background())
 
 	rapid.Check(t, func(rt *rapid.T) {
 		st.Eval()
-		spec := rapid.IntRange(0, len(pool)-1).Draw(rt, "type")
-		c := pool[spec]
+		c := pool[rapid.IntRange(0, len(pool)-1).Draw(rt, "type")]
 		raws := rapid.SliceOfN(c.gen, 1, 6).Draw(rt, "values")
-		w.nextID++
-		name := fmt.Sprintf("w%d", w.nextID)
-		if err := w.exec(fmt.Sprintf("CREATE TABLE %s (id INT PRIMARY KEY, c %s)", name, c.ddl)); err != nil {
-			rt.Fatalf("create table with %s: %v", c.ddl, err)
-		}
-		defer w.exec("DROP TABLE " + name)
-		ctx := w.ctx()
-		tbl, ok, err := w.db.GetTableInsensitive(ctx, name)
-		if err != nil || !ok {
-			rt.Fatalf("table %s: %v", name, err)
-		}
-		mt, ok := tbl.(*memory.Table)
-		if !ok {
-			rt.Fatalf("table %s is a %T", name, tbl)
-		}
-		// the column type of *this* table (equal to the pool's type; taken from the table so
-		// that ENUM/SET values are resolved against it)
-		col := colType{ddl: c.ddl, typ: tbl.Schema(ctx)[1].Type, kind: c.kind, gen: c.gen}
-		var stored []any
-		for _, raw := range raws {
-			v, ok := storable(ctx, col, raw)
-			if !ok {
-				st.Class("not-storable:" + c.kind)
-				continue
-			}
-			if err := mt.Insert(ctx, sql.NewRow(int32(len(stored)), v)); err != nil {
-				rt.Fatalf("%s: insert %s through the table API: %v", c.ddl, show(v), err)
-			}
-			stored = append(stored, v)
-		}
-		if len(stored) == 0 {
+		tb := w.store(c, raws, rt.Fatalf, func() { st.Class("not-storable:" + c.kind) })
+		defer w.drop(tb)
+		if len(tb.stored) == 0 {
 			return
 		}
 		st.Class("kind:" + c.kind)
-		query := fmt.Sprintf("SELECT c FROM %s ORDER BY id", name)
-
-		checkText := func(proto string, i int, text []byte, announced int64) {
-			v := stored[i]
-			if announced >= 0 && int64(len(text)) > announced {
-				if !(lengthKnown(col, v, text) && kf.Suppress(st, lengthFinding(col, text))) {
-					rt.Fatalf("%s over %s: text %q of stored %s has %d bytes, the field packet announces column length %d", c.ddl, proto, text, show(v), len(text), announced)
-				}
+		vs, good := w.readBack(apiCtx, tb)
+		for _, v := range vs {
+			if v.id != "" && kf.Suppress(st, v.id) {
+				continue
 			}
-			if id := roundTripFinding(col, v, text); id != "" && kf.Suppress(st, id) {
-				return
-			}
-			if sv, err := col.typ.SQL(apiCtx, nil, v); err == nil {
-				if id := wireFinding(col, proto, sv.Raw(), text); id != "" && kf.Suppress(st, id) {
-					return
-				}
-			}
-			v2, err := col.back(apiCtx, text)
-			if err != nil {
-				rt.Fatalf("%s over %s: received %q for stored %s; it does not convert back: %v", c.ddl, proto, text, show(v), err)
-			}
-			if same, err := col.same(apiCtx, v, v2); !same {
-				rt.Fatalf("%s over %s: stored %s, received %q, converted back %s (compare error: %v)", c.ddl, proto, show(v), text, show(v2), err)
-			}
-			if nonTrivial(text) {
-				st.NonTrivial(map[string]any{"type": c.ddl, "protocol": proto, "text": fmt.Sprintf("%.60q", text)}, c.ddl, proto, string(text))
-			}
+			rt.Fatalf("%s", v.msg)
 		}
-
-		// (1) vitess client, text protocol, with the field packet
-		res, err := w.vconn.ExecuteFetch(query, 1000, true)
-		if err != nil {
-			if id := queryFinding(col, stored, err); id != "" && kf.Suppress(st, id) {
-				return
-			}
-			rt.Fatalf("%s: %s over the text protocol (vitess client) fails: %v; stored %s", c.ddl, query, err, showAll(stored))
-		}
-		if len(res.Rows) != len(stored) || len(res.Fields) != 1 {
-			rt.Fatalf("%s: %d rows / %d fields for %d stored values", c.ddl, len(res.Rows), len(res.Fields), len(stored))
-		}
-		announced := int64(res.Fields[0].ColumnLength)
-		for i, row := range res.Rows {
-			if row[0].IsNull() {
-				rt.Fatalf("%s: stored %s, received NULL", c.ddl, show(stored[i]))
-			}
-			checkText("text/vitess", i, row[0].Raw(), announced)
-		}
-
-		// (2) go-sql-driver, text protocol (COM_QUERY); rows are read completely and the
-		// cursor closed before anything is checked, so a failing case cannot leak the connection
-		texts, _, err := fetch(w.sqlDB, query)
-		if err != nil {
-			rt.Fatalf("%s: %s over the text protocol fails: %v; stored %s", c.ddl, query, err, showAll(stored))
-		}
-		if len(texts) != len(stored) {
-			rt.Fatalf("%s: text protocol delivered %d of %d rows", c.ddl, len(texts), len(stored))
-		}
-		for i, tx := range texts {
-			if tx == nil {
-				rt.Fatalf("%s: stored %s, received NULL", c.ddl, show(stored[i]))
-			}
-			checkText("text/go-sql-driver", i, tx, -1)
-		}
-
-		// (3) go-sql-driver, binary protocol (prepared statement with an argument)
-		_, typed, err := fetch(w.sqlDB, fmt.Sprintf("SELECT c FROM %s WHERE id >= ? ORDER BY id", name), 0)
-		if err != nil {
-			if id := queryFinding(col, stored, err); id != "" && kf.Suppress(st, id) {
-				return
-			}
-			rt.Fatalf("%s: prepared SELECT fails: %v; stored %s", c.ddl, err, showAll(stored))
-		}
-		if len(typed) != len(stored) {
-			rt.Fatalf("%s: binary protocol delivered %d of %d rows; stored %s", c.ddl, len(typed), len(stored), showAll(stored))
-		}
-		for i, got := range typed {
-			v := stored[i]
-			switch x := got.(type) {
-			case nil:
-				rt.Fatalf("%s over the binary protocol: stored %s, received NULL", c.ddl, show(v))
-			case []byte:
-				checkText("binary/go-sql-driver", i, x, -1)
-			default:
-				// a typed value (integer, float): convert it with the column type
-				v2, _, err := col.typ.Convert(apiCtx, x)
-				if err != nil {
-					rt.Fatalf("%s over the binary protocol: stored %s, received %s; it does not convert back: %v", c.ddl, show(v), show(x), err)
-				}
-				if same, err := col.same(apiCtx, v, v2); !same {
-					rt.Fatalf("%s over the binary protocol: stored %s, received %s, converted back %s (compare error: %v)", c.ddl, show(v), show(x), show(v2), err)
-				}
-				if t := fmt.Sprint(x); nonTrivial([]byte(t)) {
-					st.NonTrivial(nil, c.ddl, "binary-typed", t)
-				}
+		for _, g := range good {
+			if nonTrivial([]byte(g.text)) {
+				st.NonTrivial(map[string]any{"type": c.ddl, "protocol": g.proto, "text": fmt.Sprintf("%.60q", g.text)}, c.ddl, g.proto, g.text)
 			}
 		}
 	})
 }
 
-// fetch runs a one-column query and returns every value both as raw text (args == nil:
-// text protocol) and as the driver's typed value (with args: binary protocol). The cursor
-// is closed before it returns.
-func fetch(db *dsql.DB, q string, args ...any) (texts [][]byte, typed []any, err error) {
-	ctx, cancel := context.WithTimeout(context.Background(), 30*time.Second)
+// vitessFetch runs a query with the vitess client under the liveness guard.
+func (w *wireFixture) vitessFetch(q string) (res *sqltypes.Result, err error) {
+	done := make(chan struct{})
+	go func() {
+		defer close(done)
+		res, err = w.vconn.ExecuteFetch(q, 1000, true)
+	}()
+	select {
+	case <-done:
+	case <-time.After(clientTimeout):
+		srvfx.Inconclusive(fmt.Errorf("vitess client call exceeded the liveness guard of %v: %s", clientTimeout, q))
+	}
+	return res, err
+}
+
+// fetch runs a one-column query with go-sql-driver (args == nil: text protocol; with args:
+// prepared statement, binary protocol) and returns the values as the driver delivers them
+// (bytes are copied). The cursor is closed before it returns.
+func fetch(db *dsql.DB, q string, args ...any) (vals []any, err error) {
+	ctx, cancel := context.WithTimeout(context.Background(), clientTimeout)
 	defer cancel()
+	defer func() {
+		if ctx.Err() != nil || errors.Is(err, context.DeadlineExceeded) {
+			srvfx.Inconclusive(fmt.Errorf("client call exceeded the liveness guard of %v: %s", clientTimeout, q))
+		}
+	}()
 	rows, err := db.QueryContext(ctx, q, args...)
 	if err != nil {
-		return nil, nil, err
+		return nil, err
 	}
 	defer rows.Close()
 	for rows.Next() {
-		if len(args) == 0 {
-			var rb dsql.RawBytes
-			if err := rows.Scan(&rb); err != nil {
-				return nil, nil, err
-			}
-			if rb == nil {
-				texts = append(texts, nil)
-			} else {
-				texts = append(texts, append([]byte{}, rb...))
-			}
-		} else {
-			var got any
-			if err := rows.Scan(&got); err != nil {
-				return nil, nil, err
-			}
-			if b, ok := got.([]byte); ok {
-				got = append([]byte{}, b...)
-			}
-			typed = append(typed, got)
+		var got any
+		if err := rows.Scan(&got); err != nil {
+			return nil, err
 		}
+		if b, ok := got.([]byte); ok {
+			got = append([]byte{}, b...)
+		}
+		vals = append(vals, got)
 	}
-	return texts, typed, rows.Err()
+	return vals, rows.Err()
 }
 
 func showAll(vs []any) string {
